@@ -781,6 +781,76 @@ func ruleC16LexerTokenizer(c *Ctx) {
 	})
 	c.Check(slashSet['*'] && slashSet['/'], "c16.lexer-tokenizer", "slash-slash-comment", c.P.Pos(raw.Pos()), "`/*` and `//` both start a comment", "after `/` the lexer only looks for `*`: the tokenizer also takes `//` for a one-line comment, so a `$n` behind `//` is substituted into comment text (and an argument with a line feed escapes from it)")
 	c.Check(dashGuard, "c16.lexer-tokenizer", "dash-dash-needs-space", c.P.Pos(raw.Pos()), "`--` is a comment only before white space or the end", "the lexer takes every `--` for a comment; the tokenizer only in front of white space: in `1--$1` the placeholder is an operand and stays unsubstituted")
+	// (b') each opener leads to the state of its own kind (round 11: the `//` arm returned the block-comment state, copied
+	// from the `/*` arm above it — the comment then runs to the next `*/` and a placeholder on a later line is not substituted)
+	{
+		classified := 0
+		var wrong []string
+		for _, b := range raw.Blocks {
+			if len(b.Instrs) == 0 {
+				continue
+			}
+			ret, ok := b.Instrs[len(b.Instrs)-1].(*ssa.Return)
+			if !ok || len(ret.Results) != 1 {
+				continue
+			}
+			v := ret.Results[0]
+			for {
+				if ct, isCT := v.(*ssa.ChangeType); isCT {
+					v = ct.X
+					continue
+				}
+				if mi, isMI := v.(*ssa.MakeInterface); isMI {
+					v = mi.X
+					continue
+				}
+				break
+			}
+			got, isFn := v.(*ssa.Function)
+			if !isFn {
+				continue
+			}
+			cnt := map[int64]int{}
+			seen := map[string]bool{}
+			for _, fc := range relFacts(factsAt(b)) {
+				if fc.r != relEQ {
+					continue
+				}
+				k, isK := constIntOf(fc.y)
+				if !isK {
+					continue
+				}
+				id := fmt.Sprintf("%p/%d", fc.x, k)
+				if !seen[id] {
+					seen[id] = true
+					cnt[k]++
+				}
+			}
+			var want *ssa.Function
+			what := ""
+			switch {
+			case cnt['/'] >= 1 && cnt['*'] >= 1:
+				want, what = block, "`/*`"
+			case cnt['/'] >= 2:
+				want, what = line, "`//`"
+			case cnt['#'] >= 1:
+				want, what = line, "`#`"
+			case cnt['-'] >= 2:
+				want, what = line, "`--`"
+			default:
+				continue
+			}
+			classified++
+			if got != want {
+				wrong = append(wrong, fmt.Sprintf("after %s the lexer enters %s (want %s) at %s", what, got.Name(), want.Name(), c.P.Pos(ret.Pos())))
+			}
+		}
+		if classified < 4 {
+			c.Unknown("c16.lexer-tokenizer", "opener-state", c.P.Pos(raw.Pos()), fmt.Sprintf("inventory: %d comment openers with a state of their own recognised in the raw state (4 on the tree as read)", classified))
+		} else {
+			c.Check(len(wrong) == 0, "c16.lexer-tokenizer", "opener-state", c.P.Pos(raw.Pos()), "`/*` enters the block-comment state; `//`, `#`, `--` enter the one-line state", strings.Join(wrong, "; "))
+		}
+	}
 	// (d) no nesting counter
 	nests := false
 	for _, f := range c.P.pkgFuncs(sanitizePath) {
